@@ -465,6 +465,106 @@ theorem C15_rel_set_reread (g : Row) (hg : g ∈ Gen.Accessors.rows) (hk : g.kin
       have a2 : Deb.get p.node k' = lget (pitems p.node.children) k' := C15_refine_get _ k'
       rw [a1, a2, hq, lget_set_other _ _ _ _ hk', pitems_para]
 
+/-! the same for a paragraph INSIDE a parsed document (the typed views wrap a paragraph of a
+`Control` / `Deb822` document) -/
+
+theorem set_ne_nil (l : ListSpec.Items) (k v : Str) : ListSpec.set l k v ≠ [] := by
+  cases l with
+  | nil => simp [ListSpec.set]
+  | cons f fs => simp only [ListSpec.set]; split <;> simp
+
+/-- the paragraphs among any part of the children of a well-formed document's root have a field -/
+theorem docItems_part_nonEmpty (d0 : Spec.DocS) (part : List DNode) (hsub : ∀ n ∈ part, n ∈ d0.tree.children) :
+    ∀ l ∈ docItems (.node .ROOT part), nonEmpty l = true := by
+  intro l hl
+  simp only [docItems, List.mem_map] at hl
+  obtain ⟨n, hn, rfl⟩ := hl
+  have hn' : n ∈ paragraphs d0.tree := by
+    simp only [paragraphs, Node.children, List.mem_filter] at hn ⊢
+    exact ⟨hsub n hn.1, hn.2⟩
+  rw [Deb.paragraphs_tree] at hn'
+  simp only [List.mem_map] at hn'
+  obtain ⟨pg, _, rfl⟩ := hn'
+  rw [Deb.items_para]
+  simp [nonEmpty, Spec.ParaS.content]
+
+/-- **set, print, parse, get inside a document.**  `d` the editing state of a parsed well-formed
+    document `d0`, `h` a live handle on the paragraph at child slot `i`.  After `set_X(f)` through
+    the handle (for a well-formed field `f` whose text is a `ValidValue`) the printed document is
+    accepted by the deb822 reader without error, it has as many paragraphs as before, and on the
+    paragraph at the same place among them the getter finds `f.str` and its value is `f.tree`
+    exposing `f.view`; the content of all other paragraphs is what it was -/
+theorem C15_rel_set_reread_doc (g : Row) (hg : g ∈ Gen.Accessors.rows) (hk : g.kind = .get)
+    (hr : isRelRow g = true) (s : Row) (hs : setterOf g = some s)
+    (d0 : Spec.DocS) (hwf0 : d0.WF) (d : Doc) (hd : d.kids = d0.tree.children)
+    (h i : Nat) (cs : List DNode) (hi : d.handles[h]? = some (some i))
+    (hc : d.kids[i]? = some (.node .PARAGRAPH cs))
+    (f : FieldA) (hwf : f.WF) (hv : Spec.ValidValue f.str) :
+    ∃ k cs', g.names = [k] ∧ setSem s (.text f.str) cs = some cs'
+      ∧ ∃ d1 : Spec.DocS, d1.WF ∧ d1.str = (d.onPara h fun _ => cs').root.text
+        ∧ Deb.parse (d.onPara h fun _ => cs').root.text = ⟨d1.tree, []⟩
+        ∧ docItems d1.tree = docItems (.node .ROOT (d.kids.take i))
+            ++ ListSpec.set (pitems cs) k f.str :: docItems (.node .ROOT (d.kids.drop (i + 1)))
+        ∧ ∃ q : Spec.ParaS,
+          (paragraphs d1.tree)[(docItems (.node .ROOT (d.kids.take i))).length]? = some q.node
+          ∧ getSem g true q.node.children = .text f.str
+          ∧ relGetRelaxed g q.node.children = some (f.tree, [])
+          ∧ (f.hasSubstvar = false → relGet g q.node.children = some (.ok f.tree))
+          ∧ Rel.accEntries f.tree = some f.view ∧ Rel.substvars f.tree = f.substvars := by
+  obtain ⟨hop, _, _, _, _⟩ := rel_row_facts g hg hr hk
+  obtain ⟨k, h1, _, h3, _, _⟩ := rel_pair_step g hg hk hr s hs cs f.str
+  have hkv : Spec.ValidKey k := C15_rel_names_valid g hg hr k (by rw [h1]; simp)
+  obtain ⟨d1, e1, e2, e3, _, e5⟩ := C04_reread_set d0 hwf0 d hd h i cs hi hc k f.str hkv hv
+  have hsame : (d.onPara h fun _ => paraSet cs k f.str) = d.onPara h (fun cs => paraSet cs k f.str) := by
+    simp only [Doc.onPara, hi, hc]
+  refine ⟨k, _, h1, h3, d1, e1, by rw [hsame]; exact e2, by rw [hsame]; exact e3, ?_⟩
+  -- no paragraph is dropped by the reader: every one has a field
+  have hA := docItems_part_nonEmpty d0 (d.kids.take i) (fun n hn => by rw [← hd]; exact List.mem_of_mem_take hn)
+  have hB := docItems_part_nonEmpty d0 (d.kids.drop (i + 1)) (fun n hn => by rw [← hd]; exact List.mem_of_mem_drop hn)
+  have hX : nonEmpty (ListSpec.set (pitems cs) k f.str) = true := by
+    have := set_ne_nil (pitems cs) k f.str
+    cases hl : ListSpec.set (pitems cs) k f.str with
+    | nil => exact absurd hl this
+    | cons _ _ => rfl
+  have hfil : (docItems (.node .ROOT (d.kids.take i)) ++ ListSpec.set (pitems cs) k f.str
+        :: docItems (.node .ROOT (d.kids.drop (i + 1)))).filter nonEmpty
+      = docItems (.node .ROOT (d.kids.take i)) ++ ListSpec.set (pitems cs) k f.str
+        :: docItems (.node .ROOT (d.kids.drop (i + 1))) := by
+    apply List.filter_eq_self.2
+    intro l hl
+    simp only [List.mem_append, List.mem_cons] at hl
+    rcases hl with hl | rfl | hl
+    · exact hA l hl
+    · exact hX
+    · exact hB l hl
+  rw [hfil] at e5
+  refine ⟨e5, ?_⟩
+  -- the paragraph at that place
+  have hget : ((paragraphs d1.tree).map items)[(docItems (.node .ROOT (d.kids.take i))).length]?
+      = some (ListSpec.set (pitems cs) k f.str) := by
+    have : (paragraphs d1.tree).map items = docItems d1.tree := rfl
+    rw [this, e5, List.getElem?_append_right (Nat.le_refl _)]
+    simp
+  rw [List.getElem?_map, Deb.paragraphs_tree, List.getElem?_map] at hget
+  cases hq : d1.paras[(docItems (.node .ROOT (d.kids.take i))).length]? with
+  | none => rw [hq] at hget; simp at hget
+  | some pg =>
+    rw [hq] at hget
+    simp only [Option.map_some, Option.some.injEq] at hget
+    have hqi : pitems pg.1.node.children = ListSpec.set (pitems cs) k f.str := hget
+    obtain ⟨_, _, v3, v4⟩ := rel_value f hwf
+    have hl : lget (pitems pg.1.node.children) k = some f.str := by rw [hqi, lget_set_same]
+    obtain ⟨a1, a2, a3⟩ := rel_get_on g hr hop k h1 pg.1.node.children f hwf hl
+    refine ⟨pg.1, ?_, a1, a2, a3, v3, v4⟩
+    rw [Deb.paragraphs_tree, List.getElem?_map, hq]
+    rfl
+
+/-- the hypotheses are satisfiable: the document example of C03 under edit (`C04.exEditDoc`),
+    handle 0 on the paragraph at child slot 2 -/
+example : C03.exDoc.WF ∧ C04.exEditDoc.kids = C03.exDoc.tree.children
+    ∧ ∃ cs, C04.exEditDoc.handles[0]? = some (some 2) ∧ C04.exEditDoc.kids[2]? = some (.node .PARAGRAPH cs) :=
+  ⟨by decide, rfl, _, rfl, rfl⟩
+
 /-! ## 5 — the getter on a paragraph that comes out of the parser -/
 
 /-- **getter on parsed text.**  `d` a well-formed deb822 document, `p` its `i`-th paragraph, `g` a
@@ -542,7 +642,7 @@ theorem paraEntries_wf (p : Spec.ParaS) (hp : p.WF) : ∀ e ∈ paraEntries p, e
 /-- **getter on parsed text, from the text in the document.**  `d` a well-formed document, `p` its
     `i`-th paragraph, `e` the first field of `p` named `k` (the getter's name), written after its
     colon as the text `f.str` of a well-formed relationship field `f` in any layout the deb822
-    grammar admits (continuation lines indented …).  The getter finds the text of `f.docForm` —
+    grammar allows (continuation lines indented …).  The getter finds the text of `f.docForm` —
     `f` without the whitespace after the colon and without the indentation of its continuation
     lines — and its value is the tree of that layout, exposing exactly `f.view` and the substitution
     variables of `f` -/
